@@ -20,10 +20,17 @@ def uenv_ops(strings):
         f = (1 if c.isalpha() else 0) + (2 if c.isdigit() else 0) + (4 if c.isupper() else 0)
         if f:
             ops.append(f"dt.cp {ord(c)} {f}")
+    try:
+        from lib_trainer.detection_rules.case_util import lower_keep_length
+    except ImportError:      # a tree without the helper lower-cases with str.lower()
+        lower_keep_length = str.lower
     for t in sorted(subs):
         lo = t.lower()
+        lk = lower_keep_length(t)
+        if lk != t:
+            ops.append(f"dt.lower {cps(t)} {cps(lk)}")
         if lo != t:
-            ops.append(f"dt.lower {cps(t)} {cps(lo)}")
+            ops.append(f"dt.lowerpy {cps(t)} {cps(lo)}")
     return ops
 
 
